@@ -769,4 +769,137 @@ theorem narrow_run : ∀ (ops : List Op) (w : World), Narrow w (run w ops)
   | [], w => Narrow.refl w
   | op :: rest, w => (narrow_step w op).trans (narrow_run rest _)
 
+/-! ## The bulk form performs the links -/
+
+theorem key_mem_mapInsert {β : Type} (k : String) (v : β) : ∀ (m : List (String × β)),
+    k ∈ (mapInsert k v m).map Prod.fst ∧ ∀ x ∈ m.map Prod.fst, x ∈ (mapInsert k v m).map Prod.fst
+  | [] => by simp [mapInsert]
+  | (k', v') :: t => by
+    simp only [mapInsert]
+    split
+    · exact ⟨by simp, fun x hx => by simp only [List.map_cons, List.mem_cons] at hx ⊢; exact Or.inr hx⟩
+    · split
+      · rename_i hk
+        refine ⟨by simp, fun x hx => ?_⟩
+        simp only [List.map_cons, List.mem_cons] at hx ⊢
+        rcases hx with rfl | hx
+        · exact Or.inl hk.symm
+        · exact Or.inr hx
+      · obtain ⟨a, b⟩ := key_mem_mapInsert k v t
+        refine ⟨by simp only [List.map_cons, List.mem_cons]; exact Or.inr a, fun x hx => ?_⟩
+        simp only [List.map_cons, List.mem_cons] at hx ⊢
+        rcases hx with rfl | hx
+        · exact Or.inl rfl
+        · exact Or.inr (b x hx)
+
+/-- the listener id `id` is registered in the object of slot `k` -/
+def Linked (w : World) (k : Nat) (id : String) : Prop := ∃ o, w.objs k = some o ∧ id ∈ o.reg.map Prod.fst
+
+theorem aliasPair_linked {w : World} (h : Inv w) (k : Nat) (p1 p2 : String) (ok : (aliasPair w k p1 p2).err = none) :
+    Linked (aliasPair w k p1 p2).w k (aliasId p1 p2) ∧ ∀ id, Linked w k id → Linked (aliasPair w k p1 p2).w k id := by
+  cases ho : w.objs k with
+  | none => simp [aliasPair, aliasPairG, ho] at ok
+  | some o =>
+    obtain ⟨⟨i1, i2, pos1, pos2, _, _, _, _, _, _, heq, _, _⟩⟩ := aliasPair_done (h.obj k o ho) ho ok
+    have hobj : (aliasPair w k p1 p2).w.objs k = some (aliasedObj o p1 p2 i2 (aliasConstraints w i1 i2).w.lnext) := by
+      rw [heq]; simp [aliased]
+    obtain ⟨a, b⟩ := key_mem_mapInsert (aliasId p1 p2) (aliasConstraints w i1 i2).w.lnext o.reg
+    refine ⟨⟨_, hobj, a⟩, fun id hl => ?_⟩
+    obtain ⟨o', ho', hid⟩ := hl
+    rw [ho] at ho'; cases ho'
+    exact ⟨_, hobj, b id hid⟩
+
+theorem bulkPass_linked (k : Nat) : ∀ (todo : List (String × String)) (w : World) (pl : List Par) (kept : List (String × String)),
+    Inv w → (bulkPass true k w pl kept todo).err = none →
+      (∀ id, Linked w k id → Linked (bulkPass true k w pl kept todo).w k id) ∧
+      (∀ e ∈ todo, e ∈ (bulkPass true k w pl kept todo).left ∨ Linked (bulkPass true k w pl kept todo).w k (aliasId e.2 e.1)) ∧
+      (∀ e ∈ kept, e ∈ (bulkPass true k w pl kept todo).left)
+  | [], w, pl, kept, _, _ => ⟨fun _ h => h, fun e he => (by cases he), fun e he => he⟩
+  | (key, val) :: todo, w, pl, kept, h, ok => by
+    simp only [bulkPass] at ok ⊢
+    cases hf : plFind? pl val with
+    | none =>
+      simp only [hf] at ok ⊢
+      cases ho : w.objs k with
+      | none => simp [ho] at ok
+      | some o =>
+      simp only [ho] at ok ⊢
+      by_cases hh : hasParameter w.heap o.params val = true
+      swap
+      · have hh' : hasParameter w.heap o.params val = false := by simpa using hh
+        simp [hh'] at ok
+      · simp only [hh, Bool.not_true, Bool.false_eq_true, if_false] at ok ⊢
+        obtain ⟨a, b, c⟩ := bulkPass_linked k todo w pl (kept ++ [(key, val)]) h ok
+        refine ⟨a, fun e he => ?_, fun e he => c e (List.mem_append_left _ he)⟩
+        rcases List.mem_cons.1 he with rfl | he
+        · exact Or.inl (c _ (by simp))
+        · exact b e he
+    | some pp =>
+      simp only [hf] at ok ⊢
+      generalize (plFind? pl key).isSome = bb at ok ⊢
+      cases bb
+      swap
+      · simp at ok
+      · simp only [Bool.false_eq_true, if_false] at ok ⊢
+        cases hok : (aliasPairG true w k val key).err with
+        | some e => simp [hok] at ok
+        | none =>
+          simp only [hok] at ok ⊢
+          have hi : Inv (aliasPairG true w k val key).w := inv_aliasPair h k val key
+          obtain ⟨l1, l2⟩ := aliasPair_linked h k val key hok
+          obtain ⟨a, b, c⟩ := bulkPass_linked k todo _ (pl ++ [{ pp with name := key }]) kept hi ok
+          refine ⟨fun id hl => a id (l2 id hl), fun e he => ?_, c⟩
+          rcases List.mem_cons.1 he with rfl | he
+          · exact Or.inr (a _ l1)
+          · exact b e he
+
+theorem bulkLoop_linked (k : Nat) : ∀ (f : Nat) (w : World) (pl : List Par) (m : List (String × String)),
+    Inv w → (bulkLoop k f w pl m).err = none →
+      (∀ id, Linked w k id → Linked (bulkLoop k f w pl m).w k id) ∧
+      (∀ e ∈ m, Linked (bulkLoop k f w pl m).w k (aliasId e.2 e.1))
+  | 0, w, pl, m, _, ok => by simp [bulkLoop] at ok
+  | f + 1, w, pl, m, h, ok => by
+    simp only [bulkLoop] at ok ⊢
+    by_cases hm : m.length = 0
+    · simp only [hm, if_true]
+      have : m = [] := List.eq_nil_of_length_eq_zero hm
+      subst this
+      exact ⟨fun _ hl => hl, fun e he => by cases he⟩
+    · simp only [hm, if_false] at ok ⊢
+      cases hp : (bulkPass true k w pl [] m).err with
+      | some e => simp [hp] at ok
+      | none =>
+        simp only [hp] at ok ⊢
+        obtain ⟨a, b, _⟩ := bulkPass_linked k m w pl [] h hp
+        have hi := inv_bulkPass k m w pl [] h
+        split at ok
+        · cases ok
+        · rename_i hne
+          simp only [hne, if_false]
+          obtain ⟨a', b'⟩ := bulkLoop_linked k f _ _ _ hi ok
+          refine ⟨fun id hl => a' id (a id hl), fun e he => ?_⟩
+          rcases b e he with hleft | hl
+          · exact b' e hleft
+          · exact a' _ hl
+
+/-- **"performing the links or raising"**: when the bulk form returns normally, every entry
+`key -> value` of the map (as sorted by `std::map`) is a registered link "key follows value" -/
+theorem bulkAlias_linked {w : World} (h : Inv w) (k : Nat) (es : List (String × String))
+    (ok : (bulkAlias w k es).err = none) : ∀ e ∈ mkMap es, Linked (bulkAlias w k es).w k (aliasId e.2 e.1) := by
+  simp only [bulkAlias] at ok ⊢
+  cases ho : w.objs k with
+  | none => simp [ho] at ok
+  | some o =>
+    simp only [ho] at ok ⊢
+    cases hl : (bulkLoop k ((mkMap es).length + 1) w
+        ((o.params.filter (fun i => (mapFind? (nameOf w.heap i) (mkMap es)).isNone)).map w.heap.get) (mkMap es)).err with
+    | some e => simp [hl] at ok
+    | none =>
+      simp only [hl] at ok ⊢
+      obtain ⟨_, b⟩ := bulkLoop_linked k _ w _ (mkMap es) h hl
+      intro e he
+      obtain ⟨o', ho', hid⟩ := b e he
+      simp only [ho']
+      exact ⟨o', by rw [(matchParametersValues_sameBut _ _ _).objs]; exact ho', hid⟩
+
 end Bpp.Alias
